@@ -182,7 +182,9 @@ pub fn run_arch(sc: &Value, id: usize, out: Out) {
                 let b = arch.extract_range(k, n).expect("extract_range(k,n)");
                 let ta = afftree_from_layers(shape_dim(&a.input_shape), a.operators(), None);
                 let tb = afftree_from_layers(shape_dim(&b.input_shape), b.operators(), None);
-                json!({"k": k, "res": "ok", "in_a": shape_dim(&a.input_shape), "out_a": shape_dim(&a.current_shape), "in_b": shape_dim(&b.input_shape),
+                // staged distillation: the tree of the first part is the precondition of the second part
+                let staged = guarded(|| afftree_from_layers(indim, b.operators(), Some(ta.clone())));
+                json!({"k": k, "res": "ok", "staged": match &staged { Ok(t) => json!({"res": "ok", "tree": tree_json(t, q)}), Err(_) => json!({"res": "panic", "tree": none()}) }, "in_a": shape_dim(&a.input_shape), "out_a": shape_dim(&a.current_shape), "in_b": shape_dim(&b.input_shape),
                        "out_b": shape_dim(&b.current_shape), "n_a": a.operators.len(), "n_b": b.operators.len(),
                        "ta": tree_json(&ta, q), "tb": tree_json(&tb, q)})
             });
